@@ -21,10 +21,10 @@ import (
 // lakeValGen produces ZSON texts of values for a pool with the given key.
 // Every record carries a unique id so multisets are unambiguous.
 type lakeValGen struct {
-	r      *rt.Rand
-	key    string // "k", "a.k", "this"
-	nextID int
-	noNull bool // no null / missing keys
+	r        *rt.Rand
+	key      string // "k", "a.k", "this"
+	nextID   int
+	noNull   bool // no null / missing keys
 	intsOnly bool
 }
 
